@@ -106,6 +106,7 @@ type FnVC struct {
 	houdiniByOrd map[int][]Clause
 	inferOnly bool
 	axiomDefs []string
+	factDefs  map[int]string
 	implPreds map[string]types.Type
 	defIndex  map[string]int
 	defIndexed int
@@ -115,6 +116,7 @@ type FnVC struct {
 	usedSpecs map[string]bool
 	arrSlices map[string]arrSlice
 	localKeys map[string]string
+	loopFresh map[string]bool
 }
 
 type arrSlice struct{ arr, lo string }
@@ -169,6 +171,16 @@ func (vc *FnVC) define(prefix, sort, term string) string {
 	n := vc.freshName(prefix)
 	vc.defs = append(vc.defs, fmt.Sprintf("(define-fun %s () %s %s)", n, sort, term))
 	return n
+}
+
+// factDef adds a quantified fact that *defines* the fresh symbol name; it is included in a query only when
+// name is relevant for it.
+func (vc *FnVC) factDef(name, term string) {
+	if vc.factDefs == nil {
+		vc.factDefs = map[int]string{}
+	}
+	vc.factDefs[len(vc.defs)] = name
+	vc.defs = append(vc.defs, "(assert "+term+")")
 }
 
 func (vc *FnVC) fact(term string) {
@@ -494,7 +506,7 @@ func (vc *FnVC) embRef(outer types.Type, f string, obj string) string {
 		vc.declareFun(fn, []string{"Int"}, "Int")
 		inv := fn + "~inv"
 		vc.declareFun(inv, []string{"Int"}, "Int")
-		vc.fact(fmt.Sprintf("(forall ((r Int)) (! (and (= (%s (%s r)) r) (< (%s r) 0)) :pattern ((%s r))))", inv, fn, fn, fn))
+		vc.fact(fmt.Sprintf("(forall ((r Int)) (! (and (= (%s (%s r)) r) (< (%s r) 0) (= (ref.root (%s r)) (ref.root r))) :pattern ((%s r))))", inv, fn, fn, fn, fn))
 	}
 	return sx(fn, obj)
 }
@@ -505,7 +517,7 @@ func (vc *FnVC) elemRef(elemT types.Type, base, idx string) string {
 		vc.declareFun(fn, []string{"Int", "Int"}, "Int")
 		vc.declareFun(fn+"~b", []string{"Int"}, "Int")
 		vc.declareFun(fn+"~i", []string{"Int"}, "Int")
-		vc.fact(fmt.Sprintf("(forall ((b Int) (i Int)) (! (and (= (%s~b (%s b i)) b) (= (%s~i (%s b i)) i) (< (%s b i) 0)) :pattern ((%s b i))))", fn, fn, fn, fn, fn, fn))
+		vc.fact(fmt.Sprintf("(forall ((b Int) (i Int)) (! (and (= (%s~b (%s b i)) b) (= (%s~i (%s b i)) i) (< (%s b i) 0) (= (ref.root (%s b i)) (ref.root b))) :pattern ((%s b i))))", fn, fn, fn, fn, fn, fn, fn))
 	}
 	return sx(fn, base, idx)
 }
@@ -689,6 +701,8 @@ const preamble = `(declare-sort Str 0)
 (declare-fun gs.diff (Str Str) Int)
 (declare-datatypes ((Slice 0)) (((mkslice (s.base Int) (s.off Int) (s.len Int) (s.cap Int)))))
 (declare-datatypes ((Iface 0)) (((mkiface (i.tag Int) (i.pay Int)))))
+(declare-fun ref.root (Int) Int)
+(assert (forall ((r Int)) (! (=> (>= r 0) (= (ref.root r) r)) :pattern ((ref.root r)))))
 `
 
 const subAxioms = `(declare-fun gs.sub (Str Int Int) Str)
